@@ -59,6 +59,10 @@ def site_project(site, t, with_events=False, style="single", extra_defs=""):
         src.append(rg.command_src("probe", [("p", r)], "i32"))
     elif site == "return":
         src.append(rg.command_src("probe", [("id", "i32")], r))
+    elif site == "return-no-params":
+        src.append(rg.command_src("probe", [], r))                              # the wrapper template for commands that take nothing
+    elif site == "return-injected-only":
+        src.append(rg.command_src("probe", [("app", "AppHandle")], r, is_async=True))
     elif site == "field":
         src.append(rg.struct_src("Holder", [("v", r)]) + rg.command_src("probe", [("h", "Holder")], "Holder"))
     elif site == "private-field":
@@ -308,7 +312,7 @@ def run(tier):
     for target in ("number", "Date", "bigint"):      # a primitive, a built-in object type, a lower-case built-in: none is exported by types.ts
         for (plabel, pf) in (positions if target == "number" else positions[:10]):
             t = pf(rg.N("Timestamp"))
-            for site in SITES:
+            for site in SITES + ("return-no-params", "return-injected-only"):
                 for mode in ("none", "zod"):
                     jobs.append((cli, "mapped->%s/%s/%s" % (target, site, plabel), site_project(site, t), mode,
                                  {"site": site, "position": plabel, "kind": "mapped->" + target, "type": t, "config": {"type_mappings": {"Timestamp": target}}}))
